@@ -39,3 +39,5 @@ Fixpoint risingb (l : list bin) : bool :=
   | b :: r => Qcltb (fst b) (snd b) &&
               match r with [] => true | c :: _ => Qcleb (snd b) (fst c) end && risingb r
   end.
+
+Definition last_hi (l : list bin) : Qc := snd (last l (0, 0)).
